@@ -15,6 +15,10 @@ import (
 	"github.com/diiyw/nodis/redis"
 )
 
+// maxStringSize is the protocol's limit for a string value (512 MiB); offsets supplied by clients
+// are checked against it before anything is allocated
+const maxStringSize = 512 * 1024 * 1024
+
 func execCommand(conn *redis.Conn, fn func()) {
 	defer func() {
 		if r := recover(); r != nil {
@@ -998,11 +1002,15 @@ func setRange(n *Nodis, conn *redis.Conn, cmd redis.Command) {
 	}
 	key := cmd.Args[0]
 	offset, err := strconv.ParseInt(cmd.Args[1], 10, 64)
-	if err != nil {
+	if err != nil || offset < 0 {
 		conn.WriteError("ERR offset value is not an integer or out of range")
 		return
 	}
 	value := []byte(cmd.Args[2])
+	if offset > maxStringSize || offset+int64(len(value)) > maxStringSize {
+		conn.WriteError("ERR string exceeds maximum allowed size (512MB)")
+		return
+	}
 	execCommand(conn, func() {
 		conn.WriteInt64(n.SetRange(key, offset, value))
 	})
@@ -1048,7 +1056,7 @@ func setBit(n *Nodis, conn *redis.Conn, cmd redis.Command) {
 	}
 	key := cmd.Args[0]
 	offset, err := strconv.ParseInt(cmd.Args[1], 10, 64)
-	if err != nil || offset < 0 {
+	if err != nil || offset < 0 || offset >= maxStringSize*8 {
 		conn.WriteError("ERR offset value is not an integer or out of range")
 		return
 	}
